@@ -1,5 +1,12 @@
 package simrt
 
+import (
+	"fmt"
+	"iter"
+	"reflect"
+	"sort"
+)
+
 // Models of sync.Pool, sync.Map, sync.OnceFunc/OnceValue/OnceValues, and the
 // generic zeroing helper of the generated cold start.
 
@@ -274,4 +281,76 @@ func OnceValues[T1, T2 any](f func() (T1, T2)) func() (T1, T2) {
 	var r1 T1
 	var r2 T2
 	return func() (T1, T2) { st.run(func() { r1, r2 = f() }); return r1, r2 }
+}
+
+// ---- map iteration order ---------------------------------------------------------
+
+// Go randomises the iteration order of maps per iteration; left alone it would
+// be a source of nondeterminism the simulator does not own (a run would not
+// replay).  Instrumented code ranges over MapSeq(m) instead of m, and reflective
+// code asks MapKeysOf(v) instead of v.MapKeys(): the order is a permutation of
+// a canonical order, chosen by one draw from the tape.
+
+func mapOrderSeed() uint64 {
+	s := S
+	if s == nil || s.aborting {
+		return 0
+	}
+	return uint64(s.draw(1<<16, func() int { return int(s.rng.next() % (1 << 16)) }))
+}
+
+func permute[T any](keys []T, canon func(T) string, seed uint64) {
+	sort.SliceStable(keys, func(i, j int) bool { return canon(keys[i]) < canon(keys[j]) })
+	if seed == 0 {
+		return
+	}
+	x := seed
+	for i := len(keys) - 1; i > 0; i-- {
+		x += 0x9e3779b97f4a7c15
+		z := x
+		z = (z ^ (z >> 30)) * 0xbf58476d1ce4e5b9
+		z = (z ^ (z >> 27)) * 0x94d049bb133111eb
+		z ^= z >> 31
+		j := int(z % uint64(i+1))
+		keys[i], keys[j] = keys[j], keys[i]
+	}
+}
+
+// MapSeq iterates over m like `range m` does (entries removed before they are
+// reached are not produced; entries added meanwhile are not produced either,
+// which the language allows) in an order drawn from the tape.
+func MapSeq[M ~map[K]V, K comparable, V any](m M) iter.Seq2[K, V] {
+	return func(yield func(K, V) bool) {
+		if len(m) == 0 {
+			return
+		}
+		keys := make([]K, 0, len(m))
+		for k := range m {
+			keys = append(keys, k)
+		}
+		if len(keys) > 1 {
+			permute(keys, func(k K) string { return fmt.Sprintf("%T:%#v", k, k) }, mapOrderSeed())
+		}
+		for _, k := range keys {
+			v, ok := m[k]
+			if !ok {
+				if k == k {
+					continue // removed meanwhile
+				}
+				continue // a NaN key: cannot be looked up again; not produced (documented limit)
+			}
+			if !yield(k, v) {
+				return
+			}
+		}
+	}
+}
+
+// MapKeysOf is reflect.Value.MapKeys in an order drawn from the tape.
+func MapKeysOf(v reflect.Value) []reflect.Value {
+	keys := v.MapKeys()
+	if len(keys) > 1 {
+		permute(keys, func(k reflect.Value) string { return fmt.Sprintf("%s:%#v", k.Type(), k.Interface()) }, mapOrderSeed())
+	}
+	return keys
 }
